@@ -56,7 +56,9 @@ def configs(tier):
     for nrows, nparts in layouts:
         for htext, htag, hordered in HEADS:
             for rtext, rtag in RESTS:
-                for cut in ("persist", "delayed", "legacy"):
+                for cut in ("persist", "delayed", "legacy", "inplace"):
+                    if cut == "inplace" and (rtag in ("merge", "to_frame") or htag in ("index", "scalar")):
+                        continue
                     out.append(dict(head=htext, htag=htag, rest=rtext, rtag=rtag, cut=cut, nrows=nrows, nparts=nparts, ordered=hordered and rtag in ("identity", "add", "filter", "filter-series", "head", "to_frame")))
     return out
 
@@ -80,7 +82,21 @@ def check(c) -> list[Result]:
     env, frames = prun.make_env(prog)
 
     def head_of(colls):
-        return eval(c["head"], {"dx": dx}, dict(colls))
+        head = eval(c["head"], {"dx": dx}, dict(colls))
+        if c["cut"] == "inplace":
+            # the collection is materialised through the collection protocol once (an earlier dask.persist(head) / head.dask),
+            # then modified in place; the cut below goes through the same protocol again
+            head.__dask_graph__()
+            head.__dask_keys__()
+            if getattr(head, "ndim", 0) == 2 and "a" in list(head.columns):
+                head["w"] = head["a"] * 10
+            elif getattr(head, "ndim", 0) == 2:
+                head.columns = [f"{x}_" for x in head.columns]
+            elif getattr(head, "ndim", 0) == 1:
+                head.name = "renamed"
+            else:
+                raise NotImplementedError("no in-place operation for this node kind")
+        return head
 
     def reimport(head, symbolic):
         """-> re-imported collection; for persist in symbolic mode the partition values are computed symbolically"""
@@ -92,6 +108,19 @@ def check(c) -> list[Result]:
                 parts, it = run_graph(optimize(head.expr).lower_completely(), env)
             else:
                 parts = prun.concrete_parts(optimize(head.expr))
+            if len(parts) != len(keys):
+                raise StructuralError(f"persist: {len(parts)} values for {len(keys)} keys")
+            return rebuild(dict(zip(keys, parts)), *args)
+        if c["cut"] == "inplace":
+            from dask.core import flatten
+            from dask.local import get_sync
+
+            rebuild, args = head.__dask_postpersist__()
+            keys = list(flatten(head.__dask_keys__()))
+            if symbolic:
+                parts, it = run_graph(head, env)
+            else:
+                parts = list(get_sync(dict(head.__dask_graph__()), keys))
             if len(parts) != len(keys):
                 raise StructuralError(f"persist: {len(parts)} values for {len(keys)} keys")
             return rebuild(dict(zip(keys, parts)), *args)
@@ -159,7 +188,7 @@ def check(c) -> list[Result]:
     try:
         if _labels_of_meta(q0._meta)[:2] != _labels_of_meta(q1._meta)[:2]:
             return [Result(name, VIOLATION, name, f"schema differs: {_labels_of_meta(q0._meta)} vs {_labels_of_meta(q1._meta)}", payload)]
-        if c["cut"] in ("persist", "legacy") or head.known_divisions:
+        if c["cut"] in ("persist", "legacy", "inplace") or head.known_divisions:
             if tuple(q0.divisions) != tuple(q1.divisions):
                 return [Result(name, VIOLATION, name, f"divisions differ: {q0.divisions} vs {q1.divisions}", payload)]
     except Exception as e:
